@@ -25,7 +25,7 @@ ALLOWED_AXIOMS = {"propext", "Classical.choice", "Quot.sound"}
 FORBIDDEN = re.compile(r"\b(sorry|admit|native_decide|bv_decide|implemented_by|unsafe)\b|^\s*axiom\s|maxHeartbeats\s+0")
 
 CXX = ["g++", "-std=c++17", "-O1", "-g", "-fsanitize=address,undefined", "-fno-sanitize-recover=all",
-       "-ffp-contract=off", "-fno-omit-frame-pointer", "-DTBFMM_VERIF", "-I" + os.path.join(REPO, "src"), "-I" + HARNESS]
+       "-ffp-contract=off", "-fno-omit-frame-pointer", "-ftrivial-auto-var-init=pattern", "-DTBFMM_VERIF", "-I" + os.path.join(REPO, "src"), "-I" + HARNESS]
 
 
 class Lock:
@@ -177,7 +177,7 @@ def build_harness(name, sources, flags=(), libs=(), cxx=None):
     Returns (path or None, compiler output)."""
     os.makedirs(CACHE, exist_ok=True)
     srcs = [s if os.path.isabs(s) else os.path.join(HARNESS, s) for s in sources]
-    key = hashlib.sha256((repo_hash() + tree_hash([HARNESS]) + " ".join(flags) + " ".join(libs) + name + str(cxx)).encode()).hexdigest()[:24]
+    key = hashlib.sha256((repo_hash() + tree_hash([HARNESS]) + " ".join(flags) + " ".join(libs) + name + " ".join(cxx or CXX)).encode()).hexdigest()[:24]
     out = os.path.join(CACHE, "%s-%s" % (name, key))
     errf = out + ".err"
     if os.path.exists(out):
